@@ -46,6 +46,7 @@ type Universe struct {
 	Bounds   []int // Range bounds
 	Prefixes []int // Prefix arguments
 	NVals    int   // values are 1..NVals
+	Filler   []int // keys of the deterministic fill/drain epilogue (C12)
 
 	HasPrefix   bool     // Prefix has a meaning for this kind
 	HasRange    bool     // Range has a meaning (not collation)
